@@ -84,7 +84,13 @@ def seed_held_lists(w):
     top.create_cable(name="c1")
     top.create_child(name="u", reference=leaf)
     n.top_instance = top
+    n.create_library(name="e0")        # two libraries without definitions
+    n.create_library(name="e1")
+    lib.create_definition(name="x0")   # two definitions without ports / cables / children
+    lib.create_definition(name="x1")
     w.add(n)
+    w.add(s.Netlist(name="m0"))        # two netlists without libraries
+    w.add(s.Netlist(name="m1"))
     w.held.append([])
     w.held.append([])
 
